@@ -57,7 +57,7 @@ def decode_array(path, require_readme=True, require_object=True):
     if d['arrayorder'] not in ('C', 'F'):
         raise FormatError(f'unknown arrayorder {d["arrayorder"]!r}')
     shape = d['shape']
-    if not isinstance(shape, list) or len(shape) < 1 or \
+    if not isinstance(shape, list) or \
             not all(isinstance(x, int) and not isinstance(x, bool) and x >= 0 for x in shape):
         raise FormatError(f'invalid shape {shape!r}')
     if not isinstance(d['darrversion'], str):
@@ -80,7 +80,7 @@ def decode_array(path, require_readme=True, require_object=True):
     e = '<' if bo == 'little' else '>'
     arr = np.frombuffer(raw, dtype=np.dtype(e + NPCODE[nt])).reshape(shape, order=d['arrayorder'])
     # spot-check first and last element with struct, independent of NumPy's dtype parsing
-    if n > 0 and d['arrayorder'] == 'C':
+    if n > 0 and d['arrayorder'] == 'C' and len(shape) > 0:
         for pos, idx in ((0, (0,) * len(shape)), (n - 1, tuple(x - 1 for x in shape))):
             comps = struct.unpack(e + code * ncomp, raw[pos * itemsize:(pos + 1) * itemsize])
             got = arr[idx]
